@@ -8,6 +8,8 @@ import traceback
 
 HERE = os.path.dirname(os.path.abspath(__file__))
 sys.path.insert(0, HERE)
+if os.environ.get("VERIF_REPO"):  # development only: run against another checkout of the repository
+    sys.path.insert(0, os.path.join(os.environ["VERIF_REPO"], "src"))
 if os.path.isdir(os.path.join(HERE, "stubs")):
     sys.path.insert(0, os.path.join(HERE, "stubs"))
 import common  # noqa: E402
